@@ -197,6 +197,9 @@ func (c *Codec) WriteMessage(msg *jsonrpc2.Message) error {
 
 // WriteRaw queues raw bytes as one message (hostile peers use it directly).
 func (c *Codec) WriteRaw(b []byte) error {
+	// (off by default; scenarios in which several goroutines of the code under test can write to one connection
+	// within a macro-step turn it on so that the scheduler, not the Go runtime, orders the writes)
+	c.sim.Yield("prewrite", c.name)
 	if c.IsClosed() {
 		return ErrClosed
 	}
